@@ -36,6 +36,7 @@ type Job struct {
 	Skip      []int  `json:"skip,omitempty"`      // plan indices not to execute (they killed an earlier worker process)
 	From      int    `json:"from,omitempty"`      // resume: execute plan indices >= From only
 	Carry     string `json:"carry,omitempty"`     // resume: summary of the part already executed
+	RaceBin   string `json:"race_bin,omitempty"`  // -race build of the worker (C17 free mode)
 }
 
 type ViolationRec struct {
@@ -108,6 +109,7 @@ func TestWorker(t *testing.T) {
 		t.Fatal(err)
 	}
 	startWatchdog()
+	raceBin = job.RaceBin
 	currentFile = job.Out + ".current"
 	sum := &Summary{Worker: job.Worker, Faults: map[string]int{}, Probes: map[string]int{}, Workloads: map[string]int{}, Strategies: map[string]int{}, MapSites: map[string]int{}}
 	start := time.Now()
@@ -118,6 +120,8 @@ func TestWorker(t *testing.T) {
 		workerReplay(t, job, sum)
 	case "hashes":
 		workerHashes(t, job, sum)
+	case "free":
+		workerFree(t, job, sum)
 	default:
 		t.Fatalf("unknown mode %q", job.Mode)
 	}
@@ -218,6 +222,8 @@ func workerRun(t *testing.T, job Job, sum *Summary) {
 		maxMin = 6
 	}
 	mine := 0
+	var freeSpecs []RunSpec
+	var freeIdx []int
 	skip := map[int]bool{}
 	for _, i := range job.Skip {
 		skip[i] = true
@@ -227,6 +233,11 @@ func workerRun(t *testing.T, job Job, sum *Summary) {
 			continue
 		}
 		currentIdx = idx
+		if spec.P("free", 0) == 1 {
+			freeSpecs = append(freeSpecs, spec)
+			freeIdx = append(freeIdx, idx)
+			continue
+		}
 		if !deadline.IsZero() && time.Now().After(deadline) {
 			sum.Skipped++
 			continue
@@ -278,6 +289,34 @@ func workerRun(t *testing.T, job Job, sum *Summary) {
 				rec.NonZero = len(ms.Choices.NZ)
 			}
 			rec.Replay = writeReplay(job.ReplayDir, job.Property, ms, mv, runs, job.Worker)
+		}
+	}
+	// free-mode (-race) runs of this worker's share, in one batch
+	if len(freeSpecs) > 0 {
+		vs, err := execFree(freeSpecs, filepath.Dir(job.Out), fmt.Sprintf("w%d", job.Worker))
+		if err != nil {
+			sum.Infra = append(sum.Infra, err.Error())
+		}
+		for i, v := range vs {
+			spec := freeSpecs[i]
+			sum.Runs++
+			sum.Workloads[spec.Workload]++
+			sum.Probes["free-mode-race-detector-runs"]++
+			distinct[hashStr(spec.Key(), fmt.Sprint(spec.Seed))] = true
+			if v.Infra() {
+				sum.Infra = append(sum.Infra, v.Msg)
+				continue
+			}
+			if !v.Bad() {
+				continue
+			}
+			if rec, ok := bySig[v.Sig]; ok {
+				rec.Count++
+				continue
+			}
+			rec := &ViolationRec{Sig: v.Sig, Class: v.Class, Clause: v.Clause, Msg: v.Msg, Count: 1, FirstIdx: freeIdx[i], Spec: spec}
+			rec.Replay = writeReplay(job.ReplayDir, job.Property, spec, v, 0, job.Worker)
+			bySig[v.Sig] = rec
 		}
 	}
 	var sigs []string
@@ -353,7 +392,31 @@ func workerReplay(t *testing.T, job Job, sum *Summary) {
 		sum.Infra = append(sum.Infra, err.Error())
 		return
 	}
-	v := exec1(t, rf.Spec)
+	var v *Verdict
+	if rf.Spec.P("free", 0) == 1 {
+		// uncontrolled schedule: rerun the workload until the report recurs (bounded)
+		batch := make([]RunSpec, 12)
+		for i := range batch {
+			batch[i] = rf.Spec.clone()
+			batch[i].Seed = rf.Spec.Seed + uint64(i)
+		}
+		vs, err := execFree(batch, filepath.Dir(job.Out), "replay")
+		v = &Verdict{}
+		if err != nil {
+			v.fail("C17", "infra", "", "", err.Error())
+		}
+		for _, x := range vs {
+			if x.Sig == rf.Sig {
+				v = x
+				break
+			}
+			if x.Bad() && !v.Bad() {
+				v = x
+			}
+		}
+	} else {
+		v = exec1(t, rf.Spec)
+	}
 	sum.account(rf.Spec, v)
 	sum.Replay = v
 	sum.Hashes = map[string]string{"recorded_sig": rf.Sig, "recorded_hash": rf.LogHash}
